@@ -337,8 +337,23 @@ func c09R3(c *Ctx) {
 		t, _ := BoolTests(fn, c08StoreFieldLoads(fn, h.store, "AutoGC"))
 		return t
 	}
-	nRef, nEnq := 0, 0
+	nRef, nEnq, nRefEnq := 0, 0, 0
 	usesInline := false
+	// helpers that hand the referrers list back as it came from registry.Referrers: judged at their call sites
+	rawRefHelper := map[*ssa.Function]bool{}
+	for _, g := range c09ReachableInPkg(h.del, 3) {
+		if g == h.del || g.Signature.Results().Len() == 0 {
+			continue
+		}
+		for _, rc := range CallsTo(g, c09nReferrers) {
+			refs := ResultOf(rc, 0)
+			for _, a := range RetAtoms(g, 0) {
+				if refs != nil && (Aliases(refs)[a.Val] || c09Resolved(a.Val) == refs) {
+					rawRefHelper[g] = true
+				}
+			}
+		}
+	}
 	for _, host := range c09ReachableInPkg(h.del, 3) {
 		delCalls := CallsTo(host, fnFullName(h.deleteOne))
 		// (a) referrers
@@ -419,35 +434,41 @@ func c09R3(c *Ctx) {
 				dangSources = append(dangSources, v)
 			}
 		}
-		for _, dang := range dangSources {
+		judge := func(dang ssa.Value, what string, withReturns bool, cnt *int) {
+			noun := ifelse(what == "referrers", "referrer of the deleted node", "dangling node")
+			kAuto, kUntagged, kRaw := "|"+what+"-only-under-AutoGC", "|"+what+"-only-if-untagged", "|"+what+"-enqueued-unfiltered"
+			if what == "referrers" {
+				// one obligation for the followers of the deleted node: they enter the work list only when untagged
+				kAuto, kUntagged, kRaw = "|referrers-only-under-AutoGC", "|referrers-enqueued-only-if-untagged", "|referrers-enqueued-only-if-untagged"
+			}
 			dAliases := Aliases(dang)
 			// slices that are handed on as a whole: appended (`append(q, xs...)`), or returned to the caller
 			// that enqueues them; slices.Concat(a, b) hands on both
-			for _, sk := range c09WholeSinks(host, host != h.del && host != h.deleteOne) {
+			for _, sk := range c09WholeSinks(host, withReturns) {
 				at, whole := sk.at, sk.whole
 				// slices.DeleteFunc(danglings, isTagged): keeps exactly the untagged ones
 				if keep, isFilter := c09FilterSeqOf(whole, dAliases); isFilter {
 					// an iterator pipeline that keeps the elements for which keep(d) holds: keep must be !isTagged
-					nEnq++
+					*cnt++
 					usesInline = true
 					ok := c09GuardedUp(c.P, at, nil, autoGCEdges, 2)
-					c.Check(R3, dn+"|dangling-only-under-AutoGC", at.Pos(), ok, ifelse(ok, "a dangling node is enqueued only on the s.AutoGC edge", "dangling nodes are deleted although AutoGC is off"))
+					c.Check(R3, dn+kAuto, at.Pos(), ok, ifelse(ok, "a "+noun+" is enqueued only on the s.AutoGC edge", noun+"s are deleted although AutoGC is off"))
 					ok = c09PredIsNot(keep, h.isTagged)
-					c.Check(R3, dn+"|dangling-only-if-untagged", at.Pos(), ok, ifelse(ok, "only the dangling nodes for which !isTagged(d) holds pass the filter before they are enqueued", "the dangling nodes are filtered with a predicate that is not the negated isTagged test: a tagged manifest can be deleted"))
+					c.Check(R3, dn+kUntagged, at.Pos(), ok, ifelse(ok, "only the "+noun+"s for which !isTagged(d) holds pass the filter before they are enqueued", "the "+noun+"s are filtered with a predicate that is not the negated isTagged test: a tagged manifest can be deleted"))
 					continue
 				}
 				if df := c09DeleteFuncOf(whole, dAliases); df != nil {
-					nEnq++
+					*cnt++
 					usesInline = true
 					ok := c09GuardedUp(c.P, at, nil, autoGCEdges, 2)
-					c.Check(R3, dn+"|dangling-only-under-AutoGC", at.Pos(), ok, ifelse(ok, "a dangling node is enqueued only on the s.AutoGC edge", "dangling nodes are deleted although AutoGC is off"))
+					c.Check(R3, dn+kAuto, at.Pos(), ok, ifelse(ok, "a "+noun+" is enqueued only on the s.AutoGC edge", noun+"s are deleted although AutoGC is off"))
 					ok = c09PredIs(df.Call.Args[1], h.isTagged)
-					c.Check(R3, dn+"|dangling-only-if-untagged", at.Pos(), ok, ifelse(ok, "the tagged dangling nodes are filtered out with slices.DeleteFunc(danglings, isTagged) before they are enqueued", "the dangling nodes are filtered with a predicate that is not the isTagged test: a tagged manifest can be deleted"))
+					c.Check(R3, dn+kUntagged, at.Pos(), ok, ifelse(ok, "the tagged "+noun+"s are filtered out with slices.DeleteFunc(…, isTagged) before they are enqueued", "the "+noun+"s are filtered with a predicate that is not the isTagged test: a tagged manifest can be deleted"))
 					continue
 				}
 				if dAliases[whole] || dAliases[c09Resolved(whole)] {
-					c.Violation(R3, dn+"|dangling-enqueued-unfiltered", at.Pos(), "the dangling nodes returned by the delete are enqueued as a whole, without the !isTagged filter: tagged manifests would be deleted")
-					nEnq++
+					c.Violation(R3, dn+kRaw, at.Pos(), "the "+noun+"s are enqueued as a whole, without the !isTagged filter: tagged manifests would be deleted")
+					*cnt++
 				}
 			}
 			for _, ap := range CallsTo(host, "builtin:append") {
@@ -456,9 +477,9 @@ func c09R3(c *Ctx) {
 					if !c09ElemOf(e, dAliases) {
 						continue
 					}
-					nEnq++
+					*cnt++
 					ok := c09GuardedUp(c.P, ap.(ssa.Instruction), nil, autoGCEdges, 2)
-					c.Check(R3, dn+"|dangling-only-under-AutoGC", ap.Pos(), ok, ifelse(ok, "a dangling node is enqueued only on the s.AutoGC edge", "dangling nodes are deleted although AutoGC is off"))
+					c.Check(R3, dn+kAuto, ap.Pos(), ok, ifelse(ok, "a "+noun+" is enqueued only on the s.AutoGC edge", noun+"s are deleted although AutoGC is off"))
 					var notTagged []Edge
 					if h.isTagged != nil {
 						_, notTagged, _ = CallTests(host, fnFullName(h.isTagged), func(x *ssa.Call) bool { return c09SameKey(x.Call.Args[len(x.Call.Args)-1], e) })
@@ -469,7 +490,23 @@ func c09R3(c *Ctx) {
 						usesInline = true
 					}
 					ok = c09Guarded(ap.(ssa.Instruction), notTagged)
-					c.Check(R3, dn+"|dangling-only-if-untagged", ap.Pos(), ok, ifelse(ok, "a dangling node d is enqueued only on the !isTagged(d) edge", "a dangling node is enqueued for deletion without the !isTagged(d) test of that same node: a tagged manifest can be deleted"))
+					c.Check(R3, dn+kUntagged, ap.Pos(), ok, ifelse(ok, "a "+noun+" d is enqueued only on the !isTagged(d) edge", "a "+noun+" is enqueued for deletion without the !isTagged(d) test of that same node: a tagged manifest can be deleted"))
+				}
+			}
+		}
+		for _, dang := range dangSources {
+			judge(dang, "dangling", host != h.del && host != h.deleteOne, &nEnq)
+		}
+		// (a') the referrers of the deleted node are followers like the danglings: tagged ones stay (D11)
+		for _, rc := range CallsTo(host, c09nReferrers) {
+			if refs := ResultOf(rc, 0); refs != nil {
+				judge(refs, "referrers", !rawRefHelper[host] && host != h.del && host != h.deleteOne, &nRefEnq)
+			}
+		}
+		for _, call := range Calls(host, func(string) bool { return true }) {
+			if g := StaticCallee(call); g != nil && rawRefHelper[g] {
+				if refs := ResultOf(call, 0); refs != nil {
+					judge(refs, "referrers", host != h.del && host != h.deleteOne, &nRefEnq)
 				}
 			}
 		}
@@ -479,6 +516,9 @@ func c09R3(c *Ctx) {
 	}
 	if nEnq == 0 {
 		c.LostAnchor(R3, dn+": enqueue of the dangling nodes returned by the delete helper")
+	}
+	if nRef > 0 && nRefEnq == 0 {
+		c.LostAnchor(R3, dn+": enqueue of the referrers of the deleted node")
 	}
 	if h.isTagged == nil && !usesInline {
 		c.LostAnchor(R3, dn+": isTagged test (bool function calling resolver.Memory.TagSet, or the same comparison inlined)")
@@ -2891,6 +2931,10 @@ var c09Mutants = []Mutant{
 	{Name: "tag-stale-inverse-left", File: "internal/resolver/memory.go", Old: "\t\t\toldTagSet.Delete(reference)\n", New: "",
 		Expect: "C09.R2.inverse-tags|(*~/internal/resolver.Memory).Tag|index-update:stale-inverse-removed"},
 	// R3
+	{Name: "d11-tagged-referrers-enqueued", File: "content/oci/oci.go", // regression of D11: the fix reverted
+		Old:    "\t\t\tfor _, referrer := range referrers {\n\t\t\t\t// do not delete existing tagged manifests\n\t\t\t\tif !s.isTagged(referrer) {\n\t\t\t\t\tdeleteQueue = append(deleteQueue, referrer)\n\t\t\t\t}\n\t\t\t}\n",
+		New:    "\t\t\tdeleteQueue = append(deleteQueue, referrers...)\n",
+		Expect: "C09.R3.cascade-guards|(*~/content/oci.Store).Delete|referrers-enqueued-only-if-untagged"},
 	{Name: "referrers-deleted-without-autogc", File: "content/oci/oci.go", Old: "if s.AutoGC && descriptor.IsManifest(head) {", New: "if descriptor.IsManifest(head) {",
 		Expect: "C09.R3.cascade-guards|(*~/content/oci.Store).Delete|referrers-only-under-AutoGC"},
 	{Name: "tagged-dangling-deleted", File: "content/oci/oci.go",
